@@ -358,6 +358,12 @@ class Sim:
         before = {"req": {r.id: bool(r.completed) for r in w.ArchiveFileCopyRequest.select()}, "copy": {c.id: c.has_file for c in w.ArchiveFileCopy.select()}}
         res = self._iterate(hostname, crash_at, sql_fault_at)
         self.crashed_last = bool(res.get("crashed"))
+        if not hasattr(self, "unsettled"):
+            self.unsettled = {}
+        if self.crashed_last or res.get("error"):
+            self.unsettled[hostname] = 2
+        elif self.unsettled.get(hostname, 0) > 0:
+            self.unsettled[hostname] -= 1
         self.just_completed = set()
         for r in w.ArchiveFileCopyRequest.select():
             if r.completed and not before["req"].get(r.id, False):
@@ -396,7 +402,9 @@ class Sim:
         if not h.alive:
             # the daemon died (crash or uncaught exception): its in-memory state is gone
             self.crashed = False
-            self.D._reserved_bytes.clear()
+            # (all simulated hosts share one Python process: only the dead daemon's own nodes lose their reservations)
+            for n in w.StorageNode.select().where(w.StorageNode.host == hostname):
+                self.D._reserved_bytes.pop(n.name, None)
             self.pool.global_abort.clear()
             self.hosts.pop(hostname, None)
             if self.sdb.in_transaction():
